@@ -132,6 +132,19 @@ type screenStats struct {
 }
 
 // plan builds a random history.
+// stockFallbacks: the table every new screen starts from, read once before any screen exists - what one screen
+// registers or removes is its own business and must not show on the next
+var stockFallbacks = func() []interface{} {
+	out := []interface{}{}
+	for k, v := range tcell.RuneFallbacks {
+		out = append(out, []interface{}{int(k), trace.Str(v)})
+	}
+	return out
+}()
+
+// fbCarry: runes whose fallback an earlier history (an earlier screen of this process) changed
+var fbCarry []rune
+
 func planScreen(rng *rand.Rand, nops int, w, h int, mix string, rich bool, hasCallbackAlways bool) []sop {
 	var ops []sop
 	cw, ch := w, h // size tcell will believe at the next Show
@@ -157,6 +170,15 @@ func planScreen(rng *rand.Rand, nops int, w, h int, mix string, rich bool, hasCa
 			St: tcx.RandStyle(rng, rich, true)}
 	}
 	var last []sop
+	if mix == "legacy" && len(fbCarry) > 0 {
+		// a fresh screen: the fallbacks another screen registered or removed are not its own
+		for k := 0; k < 2 && k < len(fbCarry); k++ {
+			rr := fbCarry[len(fbCarry)-1-k]
+			add(sop{Op: "SetContent", X: rng.Intn(cw), Y: rng.Intn(ch), R: rr, St: tcx.RandStyle(rng, rich, true)})
+			add(sop{Op: "CanDisplay", R: rr, B: true})
+		}
+		add(sop{Op: "Show"})
+	}
 	if mix != "legacy" && rng.Intn(3) == 0 {
 		// frames over cells that were never given any content: the first paints them, the second has nothing to do
 		add(sop{Op: "Show"})
@@ -182,6 +204,7 @@ func planScreen(rng *rand.Rand, nops int, w, h int, mix string, rich bool, hasCa
 					add(sop{Op: "Show"})
 				}
 				add(sop{Op: "Fallback", R: rr, B: rng.Intn(2) != 0, S: subst})
+				fbCarry = append(fbCarry, rr)
 				add(sop{Op: "SetContent", X: rng.Intn(cw), Y: rng.Intn(ch), R: rr, St: tcx.RandStyle(rng, rich, true)})
 				add(sop{Op: "Sync"})
 				add(sop{Op: "CanDisplay", R: rr, B: true})
@@ -543,10 +566,7 @@ func (r *screenRun) run(ops []sop, w, h int, truecolor bool, altscreen bool) err
 	}
 	r.tty = faketty.New(w, h)
 	r.tw.Emit(trace.Ev{"ev": "Reset"})
-	fb0 := []interface{}{}
-	for k, v := range tcell.RuneFallbacks { // documented: registered implicitly on every screen
-		fb0 = append(fb0, []interface{}{int(k), trace.Str(v)})
-	}
+	fb0 := stockFallbacks // documented: registered implicitly on every screen
 	cfg := trace.Ev{"ev": "Config", "term": r.term, "W": w, "H": h, "cs": "utf8", "wide": wide, "zero": zero,
 		"ti": tiJSON(&ti), "near": near, "bw": bw, "truecolor": truecolor, "altscreen": altscreen,
 		"xtermlike": ti.XTermLike || strings.HasPrefix(ti.Name, "xterm"), "dec": []interface{}{}, "fb0": fb0, "charset": "UTF-8"}
